@@ -506,10 +506,29 @@ def run(prog, rep, tier):
             if c.d.startswith("crossbeam_channel::") and c.d.split("::")[-1] in TIMED:
                 timed.append((bd.path.split("::")[-1], c.d.split("::")[-1], c.line))
     blocking = [c for c in rmb.live_calls() if c.d.startswith("crossbeam_channel::Select") and c.d.split("::")[-1] == "select"]
-    rep.examined(R64, PL + "|untimed-wait", sample={"blocking_select_calls": len(blocking), "timed_or_polling_calls": timed})
-    if timed or len(blocking) != 1:
-        rep.violation(R64, PL + "|untimed-wait", "the coordinator waits for the workers with %s; a source that is silent for longer than the limit (a large compressed file, a window far into the file) ends the run early with output missing" % (
-            [t[1] for t in timed] or "no blocking select"))
+    # a timed wait is acceptable when its time-out only leads back to waiting; it is a defect when the
+    # time-out arm can leave the coordinator (return None / break): a silent source would end the run
+    import c03 as _c03t
+    giving_up = []
+    for bd in (b, rmb):
+        for c in bd.live_calls():
+            if c.d.startswith("crossbeam_channel::") and c.d.split("::")[-1] in TIMED and c.target is not None:
+                try:
+                    sw_, arms_, oth_ = _c03t.result_arms(bd, c)
+                except CheckerError:
+                    giving_up.append((c.d.split("::")[-1], c.line, "result not matched"))
+                    continue
+                err_t = arms_.get(1)
+                if err_t is None:
+                    continue
+                # from the time-out arm: can the function return / the loop be left without passing a wait again?
+                waits = set(x.bb for x in bd.live_calls() if x.d.startswith("crossbeam_channel::") and x.d.split("::")[-1] in TIMED + ("select", "recv", "ready"))
+                if any(bd.term(x)[0] == "ret" for x in bd.reachable(err_t, waits)):
+                    giving_up.append((c.d.split("::")[-1], c.line, "time-out can return without waiting again"))
+    rep.examined(R64, PL + "|untimed-wait", sample={"blocking_select_calls": len(blocking), "timed_or_polling_calls": timed, "time_outs_that_give_up": giving_up})
+    if giving_up or (len(blocking) != 1 and not timed):
+        rep.violation(R64, PL + "|untimed-wait", "the coordinator's wait for the workers can give up on a time-out (%s); a source that is silent for longer than the limit (a large compressed file, a window far into the file) ends the run early with output missing" % (
+            giving_up or "no blocking select"))
     # ... and recv_many_chan reports "nothing to wait for" (None) only when no channel was registered or a lookup failed
     import decide as _dec
     none_bad = []
